@@ -73,8 +73,14 @@ fn gen_case(rng: &mut Rng) -> Case {
         let settled = *rng.pick(&[None, Some(false), Some(true)]);
         let abort_at = if rng.chance(1, 6) { Some(rng.below(n_frames as u64) as usize) } else { None };
         let contradict_at = if abort_at.is_none() && rng.chance(1, 10) && n_frames > 1 { Some(rng.range(1, n_frames as u64 - 1) as usize) } else { None };
+        // an extra frame with another delivery-id in the middle of the delivery (refused), after which the delivery goes on
+        let intruder_at = if abort_at.is_none() && contradict_at.is_none() && n_frames > 1 && rng.chance(1, 6) { Some(rng.range(1, n_frames as u64 - 1) as usize) } else { None };
         let mut prev = 0;
         for k in 0..n_frames {
+            if intruder_at == Some(k) {
+                let junk: Vec<u8> = if rng.chance(1, 2) { msg[..prev.min(msg.len())].to_vec() } else { (0..1 + rng.below(12)).map(|_| rng.next() as u8).collect() };
+                frames.push(Fr { id: Some(id.wrapping_add(77)), tag: None, fmt: None, settled: None, more: true, aborted: false, payload: junk, other_link: false });
+            }
             let end = if k + 1 == n_frames { msg.len() } else { cuts[k] };
             let payload = msg[prev..end].to_vec();
             prev = end;
@@ -177,7 +183,12 @@ fn run_impl(case: &Case) -> Result<Vec<String>, String> {
                 }
                 Ok(Err(e)) => {
                     let s = format!("{:?}", e);
-                    out.push(if s.contains("Inconsistent") { "I".to_string() } else { format!("E:{}", s.replace(' ', "_")) });
+                    if s.contains("Inconsistent") {
+                        // the link stays usable: the application goes on receiving
+                        out.push("I".to_string());
+                        continue;
+                    }
+                    out.push(format!("E:{}", s.replace(' ', "_")));
                     break;
                 }
             }
@@ -228,6 +239,13 @@ fn check_property(case: &Case, seen: &[String]) -> Option<(String, String)> {
             first = Some((f.id.unwrap_or(0), f.tag.clone().unwrap_or_default()));
         } else if let (Some(id), Some((fid, _))) = (f.id, &first) {
             if id != *fid {
+                if f.more {
+                    // refused, the delivery in progress goes on without it
+                    if got.starts_with('D') {
+                        return Some(("spliced-delivery".into(), format!("frame {} contradicts the delivery-id of its delivery but a delivery came out: {}", i, &got[..got.len().min(60)])));
+                    }
+                    continue;
+                }
                 contradiction = true;
             }
         }
@@ -245,6 +263,9 @@ fn check_property(case: &Case, seen: &[String]) -> Option<(String, String)> {
         } else {
             let (fid, ftag) = first.take().unwrap();
             let expect = format!("D {} {} F {}", fid, hex(&ftag), if acc.is_empty() { "-".to_string() } else { hex(&acc) });
+            if *got != expect && got.starts_with('D') && mine[..i].iter().any(|g| g.more && g.id.is_some() && g.id != Some(fid) && !g.aborted) {
+                return Some(("spliced-delivery".into(), format!("frame {} ends a delivery one of whose frames was refused for its delivery-id: expected {}… got {}…", i, &expect[..expect.len().min(70)], &got[..got.len().min(70)])));
+            }
             if *got != expect {
                 return Some(("wrong-delivery".into(), format!("frame {} (last of its delivery): expected {}… got {}…", i, &expect[..expect.len().min(70)], &got[..got.len().min(70)])));
             }
@@ -267,7 +288,7 @@ pub fn main(opts: &Opts) {
         "C10",
         "a real Receiver against a scripted sender: 1-4 deliveries per case, each message (0-300 bytes of body) cut at 0-4 arbitrary \
          offsets (also inside the section header and with empty pieces), continuation frames repeating/omitting delivery-id, tag, \
-         format and settled at random, aborts and contradicting delivery-ids injected, single-frame deliveries of a second link \
+         format and settled at random, aborts and contradicting delivery-ids injected (as the last frame seen, or as an extra frame in the middle after which the delivery goes on), single-frame deliveries of a second link \
          interleaved; non-trivial = a delivery of 2+ frames; distinct by hash of the frame lines",
     );
     if let Some(path) = &opts.replay {
